@@ -161,6 +161,56 @@ def toml_states(f):
     return st
 
 
+def near_miss_rows():
+    """dest -> [(class, text)] for every choice-restricted option (Tie A's own near-miss table:
+    tables/t_c20.near_miss_texts over the live `choices` / enum members of the command-line parser)."""
+    cli = P.make_cli_parser(exit_on_error=False)
+    out = {}
+    for r in t_c20.option_rows(cli):
+        nm = t_c20.option_near_misses(r)
+        if nm is not None and r["flags"]:
+            out[r["dest"]] = nm
+    return out
+
+
+def near_cli_states(f, nm):
+    """Command-line states of a choice-restricted option whose value is a NEAR MISS of a choice:
+    every one is a mistake (the reference parser must reject it)."""
+    st = []
+    for cls, text in nm.get(f["dest"], []):
+        if text.startswith("-"):
+            continue        # `-1`: a tokeniser matter (negative-number-like), covered by the hand-written cases
+        st.append((f"near-miss:{cls}", [text], [[text]], False))
+    return st
+
+
+def near_toml_states(f, nm):
+    """TOML states whose value is a near miss of an allowed value: right type but not a choice
+    (other case, padded, prefix, member name, …), or a value EQUAL to a choice of another type
+    (2.0 / "2" / [2] for the int 2; "true" / 1 for a flag).  None is acceptable."""
+    st = []
+    if f["kind"] == "flag":
+        return [("near-miss:bool-text", "true", False), ("near-miss:bool-text-capital", "True", False),
+                ("near-miss:bool-text-false", "false", False), ("near-miss:float-one", 1.0, False)]
+    if f["kind"] == "list":
+        return []
+    if f["doc_type"] == "int":
+        good = [c for c in (f["choices"] or [3, 0, 9]) if c != f["default"]]
+        st += [("near-miss:float-equal-to-valid", float(good[-1]), False),
+               ("near-miss:str-of-valid", str(good[-1]), False),
+               ("near-miss:list-of-valid", [good[-1]], False)]
+        if f["choices"]:
+            st += [("near-miss:just-above", max(f["choices"]) + 1, False),
+                   ("near-miss:far", max(f["choices"]) * 10 + 10, False)]
+        return st
+    if not f["choices"]:
+        return []
+    for cls, text in nm.get(f["dest"], []):
+        st.append((f"near-miss:{cls}", text, False))
+    st.append(("near-miss:list-of-choice", [f["choices"][0]], False))
+    return st
+
+
 class _Absent:
     def __repr__(self):
         return "ABSENT"
@@ -680,7 +730,11 @@ def _judge(case, im, spec, facts, conf, source_broken, alt_spec):
             sigs = []
             for f, v in bad:
                 got = im["ns"].get(f["dest"])
-                if f["doc_type"] == "int" and v is False:
+                tstate = case["intent"].get(f["dest"], {}).get("toml_state", "")
+                if tstate.startswith("near-miss:") and case["intent"][f["dest"]].get("toml") == v:
+                    # what was GIVEN names the class (never what the implementation answered)
+                    sigs.append(f"near-miss-toml-value-accepted:{f['doc_key']}:{tstate.split(':', 1)[1]}")
+                elif f["doc_type"] == "int" and v is False:
                     sigs.append("invalid-toml-silently-ignored:bool-false-for-int-option")
                 elif got == spec[f["dest"]]["effective"]:
                     sigs.append(f"invalid-toml-silently-ignored:{type(v).__name__}-for-{f['doc_type']}-option")
@@ -893,6 +947,101 @@ def build_cases(facts, tier, rng, sp=None, flag2dest=None):
     if sp is not None:
         cases += spelled_cases(facts, tier, rng, sp, flag2dest, cases, decoy_for)
     return cases
+
+
+def near_miss_cases(facts, tier, rng, sp=None):
+    """(n) Values that are nearly — but not — an allowed value, for EVERY choice-restricted option
+    (and the typed neighbours for int / flag options), from every TOML source (explicit conf,
+    pyproject.toml in cwd / parent, -c override) and from the command line (canonical and in every
+    single-option spelling), alone and next to a valid value on the other source and next to
+    another option's valid values.  Own random stream: the cases of the other parts do not move."""
+    nm = near_miss_rows()
+    by = {f["dest"]: f for f in facts}
+    documented = [f for f in facts if f["doc_key"]]
+    cs = {f["dest"]: cli_states(f) for f in facts}
+    ts = {f["dest"]: toml_states(f) for f in facts}
+    thorough = tier == "thorough"
+    out = []
+    k = rng.randrange(len(VISIBLE_ENVS))
+
+    def valid_of(table, dest):
+        return next(x for x in table[dest] if x[0] == "valid")
+
+    def other_valid(dest):
+        """another documented option with a valid value on both sources"""
+        g = rng.choice([x for x in documented if x["dest"] != dest and x["dest"] not in ("is_strict", "threshold")])
+        return {g["dest"]: (valid_of(cs, g["dest"]), valid_of(ts, g["dest"]))}
+
+    for f in documented:
+        d = f["dest"]
+        decoy = []
+        if f["kind"] == "scalar" and f["doc_key"]:
+            decoy = [(f["doc_key"], (f["choices"] or [77 if f["doc_type"] == "int" else "decoy"])[0])]
+        # TOML near misses
+        for t in near_toml_states(f, nm):
+            envs = VISIBLE_ENVS if thorough else [VISIBLE_ENVS[k % len(VISIBLE_ENVS)]]
+            k += 1
+            for env in envs:
+                out.append(make_case(facts, {d: (cs[d][0], t)}, env, rng, decoy=decoy, eoe=rng.random() < 0.1))
+            if thorough or rng.random() < 0.2:
+                env = VISIBLE_ENVS[k % len(VISIBLE_ENVS)]
+                k += 1
+                out.append(make_case(facts, {d: (valid_of(cs, d), t)}, env, rng, decoy=decoy))
+            if thorough or rng.random() < 0.12:
+                env = rng.choice(VISIBLE_ENVS)
+                assign = other_valid(d)
+                assign[d] = (cs[d][0], t)
+                out.append(make_case(facts, assign, env, rng, decoy=decoy))
+        # command-line near misses
+        forms = None if sp is None else c20_argv.Speller.SINGLE1
+        for c in near_cli_states(f, nm):
+            env = rng.choice(ENVS)
+            if env[0] == "dict":
+                env = ("files",) + env[1:]
+            out.append(make_case(facts, {d: (c, ts[d][0])}, env, rng, eoe=rng.random() < 0.1))
+            if thorough or rng.random() < 0.2:
+                out.append(make_case(facts, {d: (c, valid_of(ts, d))}, rng.choice(VISIBLE_ENVS), rng, decoy=decoy))
+            if thorough or rng.random() < 0.12:
+                assign = other_valid(d)
+                assign[d] = (c, ts[d][0])
+                out.append(make_case(facts, assign, rng.choice(VISIBLE_ENVS), rng))
+            if forms and c[2][0][0].strip() == c[2][0][0] and "=" not in c[2][0][0] and (thorough or rng.random() < 0.4):
+                for form in (forms if thorough else [rng.choice(forms)]):
+                    spell = lambda parts, r, form=form: sp.render(parts, r, p_cluster=0.0, p_respell=0.0, p_dd=0.1, form=form)  # noqa: E731
+                    t_ = rng.choice([ts[d][0], valid_of(ts, d)])
+                    env = rng.choice(ENVS if t_[1] is ABSENT else VISIBLE_ENVS)
+                    if env[0] == "dict" and t_[1] is ABSENT:
+                        env = ("files",) + env[1:]
+                    out.append(make_case(facts, {d: (c, t_)}, env, rng, decoy=decoy, spell=spell))
+    for c in out:
+        c["near"] = True
+    return out
+
+
+def near_miss_sample(facts, tier, rng):
+    """The near misses through `python -m rattr`: per choice-restricted option, a few classes from
+    the TOML (pyproject.toml / -c override) and from the command line."""
+    nm = near_miss_rows()
+    cs = {f["dest"]: cli_states(f) for f in facts}
+    ts = {f["dest"]: toml_states(f) for f in facts}
+    out = []
+    for f in facts:
+        if not f["doc_key"]:
+            continue
+        d = f["dest"]
+        tn = near_toml_states(f, nm)
+        cn = near_cli_states(f, nm)
+        if not f["choices"]:
+            tn, cn = tn[:1], []
+        nt = min(len(tn), 24 if tier == "thorough" else 4)
+        nc = min(len(cn), 12 if tier == "thorough" else 2)
+        for t in rng.sample(tn, nt):
+            out.append(make_case(facts, {d: (cs[d][0], t)}, rng.choice([ENVS[1], ENVS[2], ENVS[4]]), rng))
+        for c in rng.sample(cn, nc):
+            out.append(make_case(facts, {d: (c, ts[d][0])}, ENVS[1], rng))
+    for c in out:
+        c["near"] = True
+    return out
 
 
 def spelled_cases(facts, tier, rng, sp, flag2dest, base, decoy_for):
@@ -1146,7 +1295,13 @@ def run(tier, seed, build):
                 "invalid type, out of choice, …} x TOML states {absent, valid, each wrong type incl. bool-for-int, out of choice, …} "
                 "rotating over {explicit conf, no -c, existing -c, missing -c} x {pyproject in cwd, in the parent, shadowed by a VCS root, none}; "
                 "pairs of options (sampled in quick, full reduced product in thorough), triples (thorough), seeded random many-option cases "
-                "with unknown keys / syntax errors / missing [tool.rattr]; a sample through the real CLI. "
+                "with unknown keys / syntax errors / missing [tool.rattr]; a sample through the real CLI; "
+                "(n) for every choice-restricted option every NEAR MISS of every allowed value (tables/t_c20.near_miss_texts: other letter "
+                "case, surrounding whitespace, prefixes / suffixes / extensions, enum member names / qualified names / reprs, positions, "
+                "casefold / NFKC look-alikes; for int choices just outside, float / hex / exponent / bool texts) from the TOML (explicit "
+                "conf, pyproject in cwd / parent, -c override) and from the command line (canonical + one single-option spelling), alone, "
+                "next to a valid value on the other source and next to another option; typed neighbours for int / flag options "
+                "(2.0, \"2\", [2], \"true\"); a sample of them through the real CLI. "
                 "non-trivial = distinct case in which at least one option is given on at least one source")
     rng = random.Random(seed)
     facts, flag2dest = option_facts()
@@ -1159,7 +1314,10 @@ def run(tier, seed, build):
         res.extra["documented_toml_keys_without_effect"] = dead
         cases = build_cases(facts, tier, rng, sp, flag2dest)
         sample_all = cli_sample(facts, rng, tier, sp, flag2dest)
-        cases = cases + sample_all
+        rng_n = random.Random(seed * 7919 + 20)     # own stream: the parts above are unchanged by (n)
+        near = near_miss_cases(facts, tier, rng_n, sp)
+        sample_all = sample_all + near_miss_sample(facts, tier, rng_n)
+        cases = cases + near + sample_all
         kept = []
         for c in cases:
             if not in_fragment(c, flags):
@@ -1288,6 +1446,16 @@ def run(tier, seed, build):
                                            "case": shown, "cli": ob})
                 else:
                     res.count("cli:diagnostic")
+                continue
+            if im["outcome"] == "cliError" and case.get("near"):
+                # a near-miss value on the command line: usage error, exit status 2
+                if ob["exit"] == 0:
+                    res.violations.append({"signature": "invalid-command-line-accepted-by-cli", "case": shown, "cli": ob})
+                elif not ob.get("usage_error"):
+                    res.violations.append({"signature": f"invalid-command-line-cli-exit-{ob['exit']}-without-usage-error",
+                                           "case": shown, "cli": ob})
+                else:
+                    res.count("cli:usage-error")
                 continue
             if im["outcome"] == "ok":
                 if ob["exit"] != 0:
